@@ -73,7 +73,7 @@ pub fn run_history(hist: &Value, out: &mut dyn Write) {
         } else if kind == "wide" {
             if al.is_empty() { format!("{}{{wide_msg}}{}", lit(&pre), lit(&suf)) } else { format!("{}{{wide_msg:{}}}{}", lit(&pre), al, lit(&suf)) }
         } else {
-            format!("{}{{{}:{}{}{}}}{}", lit(&pre), if kind == "prefix" { "prefix" } else { "msg" }, al, w, if tr { "!" } else { "" }, lit(&suf))
+            format!("{}{{{}:{}{}{}{}}}{}", lit(&pre), if kind == "prefix" { "prefix" } else { "msg" }, al, w, if tr { "!" } else { "" }, op.get("sty").and_then(|x| x.as_str()).unwrap_or(""), lit(&suf))
         };
         let r = catch_unwind(AssertUnwindSafe(|| {
             let style = match ProgressStyle::with_template(&template) { Ok(s) => s, Err(e) => return (vec![], format!("{e}")) };
